@@ -52,7 +52,18 @@ theorem isEmpty_sound (O : Oracle) (hO : O.PresolveAmbiguous) (l : TL) (b : Bool
   intro hb; subst hb
   unfold isEmpty polyEmpty at h
   split at h; · cases h
-  split at h; · cases h
+  rename_i hr0
+  split at h
+  · rename_i h0
+    have hn : l.vars.length = 0 := by
+      rcases Nat.mul_eq_zero.mp h0 with h1 | h1
+      · exact absurd h1 hr0
+      · exact h1
+    simp only [Except.ok.injEq, List.any_eq_true, decide_eq_true_eq] at h
+    obtain ⟨t, ht, hneg⟩ := h
+    rintro ⟨v, hv⟩
+    have := (PTerm.holds_of_vars_nil t (TL.varfree_of_vars_nil l (List.length_eq_zero_iff.mp hn) t ht) v).mp (hv t ht)
+    exact absurd hneg (by simpa [Rat.not_lt] using this)
   split at h
   · rename_i hlp; exact hO.inf0 _ hlp
   all_goals cases h
@@ -121,7 +132,7 @@ theorem optimize_some (O : Oracle) (hO : O.PresolveAmbiguous) (l : TL) (obj : Li
     · cases h
 
 /-- `None`: the constraints are satisfiable and the objective is unbounded in the requested direction -/
-theorem optimize_none (O : Oracle) (hO : O.PresolveAmbiguous) (l : TL) (hp : l.Proper) (obj : Lin) (mx : Bool)
+theorem optimize_none (O : Oracle) (hO : O.PresolveAmbiguous) (l : TL) (obj : Lin) (mx : Bool)
     (h : optimize O l obj mx = .ok none) :
     (∃ z, TL.holds l z) ∧ ∀ M, ∃ z, TL.holds l z ∧ (if mx then M < evalL obj z else evalL obj z < -M) := by
   unfold optimize at h
@@ -171,11 +182,16 @@ theorem optimize_none (O : Oracle) (hO : O.PresolveAmbiguous) (l : TL) (hp : l.P
       split at h
       · rename_i he
         rcases hO.inf _ _ hlp with hinf | ⟨hsat, hunb⟩
-        · -- truly infeasible, yet `is_empty` said "not empty": impossible for proper terms
+        · -- truly infeasible, yet `is_empty` said "not empty": impossible (also for variable-free rows, since the
+          -- repair of `is_polytope_empty` for matrices without columns)
           exfalso
           have hlne : l ≠ [] := fun e => hl0 (by simp [e])
-          have hv := TL.Proper.vars_ne_nil l hp hlne
-          exact hinf (polyEmpty_false' O hO l _ hlne (fun e => hv (List.length_eq_zero_iff.mp e)) (by unfold isEmpty at he; exact he))
+          unfold isEmpty at he
+          by_cases hn : l.vars.length = 0
+          · rw [hn] at he
+            exact hinf ⟨fun _ => 0, polyEmpty_false_nocols O l hlne
+              (TL.varfree_of_vars_nil l (List.length_eq_zero_iff.mp hn)) he _⟩
+          · exact hinf (polyEmpty_false' O hO l _ hlne hn he)
         · exact conv hsat hunb
       · cases h
       · cases h
